@@ -20,7 +20,8 @@
 (*                         __sample_types_units__ + service_name)) is the  *)
 (*                         record Fp (an injective hash)                   *)
 (*     reader/prof/transpiler/planner_selector.go  -> FpSel, TypeMatch     *)
-(*       (populateTypeId: the type id becomes FIVE independent matchers)   *)
+(*       (populateTypeId: one __profile_type__ matcher; quirk type_cross:  *)
+(*       the type id as five independent matchers, as it was)              *)
 (*     planner_get_labels.go + planner_select_series.go + profService.go   *)
 (*       SelectSeries (fold of the rows ordered by fingerprint, time)      *)
 (*                                             -> MechSelectSeries         *)
@@ -36,7 +37,10 @@
 (* the code as it is written departs from the definition.  Mech(.., {}) is *)
 (* the mechanism with every quirk repaired and TLC proves it equal to the  *)
 (* definition on every small database and request (MechEqDef);             *)
-(* Mech(.., AsCoded) is the code as it is, and TLC proves that whenever it *)
+(* Mech(.., AsCoded) is the code as it is (AsCoded = AllQuirks minus the   *)
+(* quirks that have been repaired in the code: MC_ProfSeries!Repaired, set *)
+(* by tools/props/x05.py; a repaired quirk stays here as a mutation of the *)
+(* mechanism), and TLC proves that whenever a mechanism with quirks        *)
 (* differs from the definition at least one single quirk accounts for it   *)
 (* (QuirksExplain).  The binding (harness/cmd/x05) runs the REAL /ingest   *)
 (* and querier routes on every exported case: an answer equal to the       *)
@@ -83,6 +87,8 @@ CONSTANTS
     MaxProfiles
 
 AllQuirks == {"avg_sql",            \* SelectSeries AVERAGE: arrayFirst(x -> x.1 == <condition>) without an array: SQL error
+              "avg_per_sample",     \* SelectSeries AVERAGE: sum / sum(values_agg.3), and .3 is the number of SAMPLES of a profile
+                                    \*   (calculateSumAndCount), so the mean is over samples, not over the profiles of the bucket
               "type_cross",         \* the type id is matched component by component: sample type and unit need not be a pair
               "dup_series",         \* SelectSeries without group_by: one series per FINGERPRINT (type list included), not per label set
               "groupby_order",      \* SelectSeries group_by: cityHash64 of the filtered tags in STORED order (no arraySort)
@@ -184,7 +190,10 @@ MechSelectSeries(db, rq, Q) ==
                   IN  [labels |-> LabelsOf(J(CHOOSE p \in ps : TRUE)),
                        points |-> {[t   |-> BLabel(b),
                                     num |-> SumF([p \in {x \in ps : Bucket(x.ts) = b} |-> AggSum(db, p.i, <<rq.T.st, rq.T.su>>)]),
-                                    den |-> IF rq.agg = "avg" THEN Cardinality({x \in ps : Bucket(x.ts) = b}) ELSE 1]
+                                    den |-> IF rq.agg # "avg" THEN 1
+                                            ELSE IF "avg_per_sample" \in Q
+                                            THEN SumF([p \in {x \in ps : Bucket(x.ts) = b} |-> NSamples(db, p.i)])   \* sum(values_agg.3)
+                                            ELSE Cardinality({x \in ps : Bucket(x.ts) = b})]
                                    : b \in {Bucket(p.ts) : p \in ps}}]
     IN  [err |-> {}, series |-> BagOf(keys, Ser)]
 
@@ -264,10 +273,13 @@ Pseudo(per, pair) == {<<"__name__", per[1]>>, <<"__period_type__", per[2]>>, <<"
                       <<"__sample_type__", pair[1]>>, <<"__sample_unit__", pair[2]>>,
                       <<"__profile_type__", per[1] \o ":" \o pair[1] \o ":" \o pair[2] \o ":" \o per[2] \o ":" \o per[3]>>}
 \* request: [sels (the matchers), ln (sequence of label names, <<>> = all)];  answer: set of [s |-> label set, n |-> multiplicity]
-\* PlanSeries: no selector in any matcher => AllTimeSeriesSelectPlanner (and nothing else); otherwise one
-\* TimeSeriesSelectPlanner per matcher, each with its own "WITH fp AS (..)" -- the statement keeps ONE definition per WITH
-\* alias, the first: every branch of the UNION ALL reads the fingerprints of the FIRST matcher (its own "global"
-\* conditions -- service_name -- stay in its WHERE)
+\* PlanSeries: no selector in any matcher => AllTimeSeriesSelectPlanner; one matcher => TimeSeriesSelectPlanner over its
+\* stream selector; several => ONE TimeSeriesSelectPlanner over the UNION ALL of the stream selectors; FilterLabelsPlanner
+\* (DISTINCT) around any of them when label_names is given.
+\* The quirks, as the code was: names_ignored -- AllTimeSeriesSelectPlanner was returned before the filter was applied;
+\* dup_labelsets -- the filter had no DISTINCT; second_matcher_lost -- one TimeSeriesSelectPlanner per matcher, each with
+\* its own "WITH fp AS (..)": the statement keeps ONE definition per WITH alias, the first, so every branch of the UNION ALL
+\* read the fingerprints of the FIRST matcher (its own "global" conditions -- service_name -- stayed in its WHERE)
 MechSeries(db, rq, Q) ==
     LET nsel   == Cardinality({i \in DOMAIN rq.sels : rq.sels[i] # <<>>})
         Glob(r, sel) == IF sel # <<>> /\ sel[1] = "service_name" THEN r.svc = sel[2] ELSE TRUE
